@@ -53,9 +53,10 @@ var InstrTargets = []instr.Target{
 	{File: "pkg/ratelimiter/store/flowcontrol/maxinflight.go", All: true, Funcs: []string{"globalMaxInflight.SetState", "globalMaxInflight.add", "globalMaxInflight.Resize"}},
 	{File: "pkg/flowcontrols/flowcontrol/flowcontrol.go", All: true, Funcs: []string{"flowControl.Resize"}},
 	{File: "pkg/flowcontrols/remote/flowcontrol_wrapper.go", All: true, Funcs: []string{"localWrapper.Sync", "meterWrapper.TryAcquire", "meterWrapper.Release"}},
-	{File: "pkg/flowcontrols/remote/global_flowcontrol.go", Funcs: []string{"maxInflightWrapper.SetLimit", "maxInflightWrapper.Resize", "maxInflightWrapper.resize", "maxInflightWrapper.TryAcquire", "maxInflightWrapper.Release"}},
+	{File: "pkg/flowcontrols/remote/global_flowcontrol.go", Funcs: []string{"maxInflightWrapper.SetLimit", "maxInflightWrapper.Resize", "maxInflightWrapper.resize", "maxInflightWrapper.TryAcquire", "maxInflightWrapper.Release", "tokenBucketWrapper.SetLimit", "tokenBucketWrapper.Resize", "tokenBucketWrapper.TryAcquire"}},
 	{File: "pkg/flowcontrols/limiter.go", All: true, Funcs: []string{"upstreamLimiter.Load", "upstreamLimiter.syncLocalFlowControls"}},
 	{File: "pkg/clusters/clusterinfo.go", Funcs: []string{"endpointPickStrategy.Pop", "ClusterInfo.MatchAttributes", "ClusterInfo.Sync"}},
+	{File: "pkg/gateway/controllers/upstream_controller.go", Funcs: []string{"UpstreamClusterController.syncUpstreamCluster", "UpstreamClusterController.AddOrUpdateForServerNames", "UpstreamClusterController.checkServerNameConflict", "UpstreamClusterController.checkUpstreamServerNameConflict", "UpstreamClusterController.DeleteForServerNames"}},
 	{File: "pkg/ratelimiter/limiter/ratelimter.go", Funcs: []string{"rateLimiter.UpdateRateLimitConditionStatus", "rateLimiter.UpstreamConditionHandler", "rateLimiter.calculateUpstreamCondition", "rateLimiter.deleteCondition"}},
 	// the process id is part of every gateway instance's name; names are hashed
 	// (sync.Map of known clients on the server), so a different pid would mean
@@ -264,9 +265,11 @@ func init() {
 		Title: "Tenant resolution: a host resolves to at most one cluster, and the right one",
 		Batches: []Batch{
 			{World: "gw", Profile: "c10-names", Quick: 200, Thor: 10000, PerProc: 1},
+			{World: "gw", Profile: "c10p-preempt", Quick: 200, Thor: 10000, PerProc: 1},
 		},
-		Rule: "each run = 2-4 clusters (one of them named like an alias of the pool), 8-45 steps of create/update with 0-3 server names drawn from a colliding mixed-case pool (incl. another cluster's name) and serving cert/client CA on or off, delete, re-create, admission lister or controller informer held back and released (conflicting claims reach the controller), clock advances, and stable points (no lag, 24 s later) with real requests whose Host header comes in drawn case with or without port; invariants at every boundary (a name resolves only to a claimant; an owner that claimed a name in every version never loses it), at stable points (deleted clusters stop resolving; with conflict-free latest objects resolution equals the claims; HTTP agrees with the manager) and TLS material per SNI at the end; distinct = distinct trace hash; non-trivial = at least 3 accepted writes",
-		Real: gwReal, Stub: gwStub, Assume: append([]string{"TLS selection is checked by calling WrapGetConfigForClient / SNIVerifyOptions directly (no handshakes are simulated)", "when two live latest objects claim one name the iff clause is not evaluated (which of them serves it is not stated)"}, gwAssume...),
+		Rule:     "each run = 2-4 clusters (one of them named like an alias of the pool), 8-45 steps of create/update with 0-3 server names drawn from a colliding mixed-case pool (incl. another cluster's name) and serving cert/client CA on or off, delete, re-create, admission lister or controller informer held back and released (conflicting claims reach the controller), clock advances, and stable points (no lag, 24 s later) with real requests whose Host header comes in drawn case with or without port; invariants at every boundary (a name resolves only to a claimant; an owner that claimed a name in every version never loses it), at stable points (deleted clusters stop resolving; with conflict-free latest objects resolution equals the claims; HTTP agrees with the manager) and TLS material per SNI at the end; distinct = distinct trace hash; non-trivial = at least 3 accepted writes. Profile c10p-preempt: the same histories while the controller's own goroutines give up the processor at one in three statements of upstream_controller.go / clusterinfo.go Sync (go/ast yields, a PRNG of the run decides), so that whatever else is runnable in the gateway runs inside a sync",
+		NeedInst: []string{"pkg/gateway/controllers/upstream_controller.go"},
+		Real:     gwReal, Stub: gwStub, Assume: append([]string{"TLS selection is checked by calling WrapGetConfigForClient / SNIVerifyOptions directly (no handshakes are simulated)", "when two live latest objects claim one name the iff clause is not evaluated (which of them serves it is not stated)"}, gwAssume...),
 	})
 	reg(&Check{
 		ID:    "C16",
@@ -285,6 +288,7 @@ func init() {
 		Batches: []Batch{
 			{World: "rlstub", Profile: "c09-byzantine", Quick: 250, Thor: 15000, PerProc: 1},
 			{World: "rl", Profile: "c09i-wrapper", Quick: 1500, Thor: 60000, PerProc: 1},
+			{World: "rl", Profile: "c09t-tbwrapper", Quick: 800, Thor: 30000, PerProc: 1},
 		},
 		Rule:     "each run = one gateway instance's real limiter stack (clientsets with heartbeat/readiness hysteresis, UpstreamLimiter, reconcile loop, global counter manager, wrappers, meters) for one cluster with 1-2 schemas (max-in-flight or token bucket x allocate or count strategy, local <= global), 20-120 steps of request bursts with drawn hold times, clock advances (50 ms - 6 s), server readiness flaps, leader unknown, partitions, against a scripted server that answers allocate/acquire with arbitrary int32 quotas and bursts (0, negative, > configured, MaxInt32), accept/reject, error strings and failures; then faults stop, the server answers an honest quota and the bounded-liveness clause is checked; distinct = distinct trace hash; non-trivial = requests were admitted through the server-controlled limiter and also refused or admitted locally. Max-in-flight schemas are reconfigured during the run (new local/global limits; after a lowering the previous limit is tolerated until the second allocate answer has come back, i.e. until a reconcile round that began after the change has completed) and the server may turn stale (repeats its previous answer per schema)",
 		NeedInst: []string{"pkg/flowcontrols/remote/global_flowcontrol.go"},
@@ -310,7 +314,7 @@ func init() {
 			{World: "rl", Profile: "c13-nofault", Quick: 60, Thor: 3000, PerProc: 1, FaultFree: true},
 			{World: "rl", Profile: "c13-faults", Quick: 140, Thor: 7000, PerProc: 1},
 		},
-		Rule: "each run = N in {1,2,3,5} shards, 2-3 replicas with real lease election (3 s leases), store local or API-backed, 2-4 upstreams, two gateway client sets; shard function observed for odd byte strings on both sides; 20-90 steps of allocate/acquire RPCs sent to a drawn replica (leader or not), clock advances, and faults: a replica cut off from the API server (leases expire), crash, restart, gateway-replica partitions; leadership is taken in each replica's own view at the boundaries around every call; distinct = distinct trace hash; non-trivial = at least one RPC served and one refused. Profile c09i-wrapper (rl world, bubble + cooperative scheduler): the count-strategy max-in-flight wrapper of one schema with its three callers as sim threads interleaved at statement granularity - the global counter delivering 1-5 server answers (error, accept / refuse with limits from 0 to 2^30, stale id), the reconcile loop applying 1-3 changed limits (local config, then Sync -> Resize), 2-5 requests (TryAcquire, hold, Release; a request waiting for an answer is left to its 300 ms time-out); each admission is judged against the loosest global limit in force at some moment of its TryAcquire call, and after quiescence at most the current global limit can be taken",
+		Rule: "each run = N in {1,2,3,5} shards, 2-3 replicas with real lease election (3 s leases), store local or API-backed, 2-4 upstreams, two gateway client sets; shard function observed for odd byte strings on both sides; 20-90 steps of allocate/acquire RPCs sent to a drawn replica (leader or not), clock advances, and faults: a replica cut off from the API server (leases expire), crash, restart, gateway-replica partitions; leadership is taken in each replica's own view at the boundaries around every call; distinct = distinct trace hash; non-trivial = at least one RPC served and one refused. Profile c09i-wrapper (rl world, bubble + cooperative scheduler): the count-strategy max-in-flight wrapper of one schema with its three callers as sim threads interleaved at statement granularity - the global counter delivering 1-5 server answers (error, accept / refuse with limits from 0 to 2^30, stale id), the reconcile loop applying 1-3 changed limits (local config, then Sync -> Resize), 2-5 requests (TryAcquire, hold, Release; a request waiting for an answer is left to its 300 ms time-out); each admission is judged against the loosest global limit in force at some moment of its TryAcquire call, and after quiescence at most the current global limit can be taken. Profile c09t-tbwrapper: the same for the token-bucket wrapper (3-40 answers, mostly accepts; admissions stamped on the fake clock and bounded per window by qps*T + burst of the loosest limits in force at some moment of the window, one fresh burst per change inside it)",
 		Real: rlReal, Stub: rlStub, Assume: append([]string{"leadership in a replica's own view may overlap with another's for less than a lease under partition: the oracle does not assume a unique leader", "the range/determinism of the shard function over all names is only sampled (a pure function, see DESIGN §6)"}, rlAssume...),
 	})
 	reg(&Check{
